@@ -1,0 +1,14 @@
+//go:build verif
+
+package statecache
+
+// VerifYieldHook, when set by a verification harness, is called at every
+// access to a shared map in StateCache.Get and StateCache.commit so that a
+// scheduler can choose the interleaving.  Build tag "verif" only.
+var VerifYieldHook func(point string)
+
+func verifYield(point string) {
+	if h := VerifYieldHook; h != nil {
+		h(point)
+	}
+}
